@@ -769,3 +769,392 @@ Proof.
       rewrite fail_of_raise; unfold raise_out; cbn [mkx xk is_index]; rewrite ?Ek; reflexivity.
   - reflexivity.
 Qed.
+
+(* ---- Forward.parseImpl for the direct rule = memo-free iteration of `direct_out` ---- *)
+Lemma direct_forward f d m : f0 <= f ->
+  memo_get m (loc, nid aE, d) = None ->
+  exists m', lr_forward (parse_lr G (S (S (S f)))) aE body s loc d m =
+             Some (grow direct_out (length s + 3) (Z.of_nat loc - 1) (MExc (seed_exn loc (nid aE))), m') /\
+             m_cap m' = m_cap m /\
+             forall k, k <> (loc, nid aE, false) -> k <> (loc, nid aE, true) -> active m' k = active m k.
+Proof.
+  intros Hf Hm. apply (lr_forward_grow _ _ _ _ _ _ (direct_body_reads f Hf) d m Hm).
+Qed.
+
+(* ---- the rounds: base, then one more tail per round ---- *)
+(* what a failing tail leads to: fatal errors escape, ParseException/IndexError fall back to `base` (which ends at
+   lb <= current end, so the loop stops with the previous result), anything else escapes *)
+Definition tail_fail_out (l : nat) (r : pres) (x : exn) : outcome :=
+  match raise_out aa loc x with
+  | Err x' =>
+    if is_fatal (xk x') then Err (enh_rewrite aE true loc (mkx (xk x') (xloc x') (xmsg x') (Some (nid aa))))
+    else if is_pe (xk x') || is_index (xk x') then Ok l r
+    else Err (enh_rewrite aE true loc x')
+  | o => o
+  end.
+
+(* `base (tail)*` evaluated the way the growth loop does it: the accumulated result is re-wrapped by E, by the And
+   and by the MatchFirst in every round *)
+Fixpoint iter (fuel : nat) (l : nat) (r : pres) : outcome :=
+  match fuel with
+  | 0 => Div
+  | S f =>
+    match and_pure aa tail l (wrap aE r) false with
+    | AOk l' acc => if Nat.leb l' l then Ok l r else iter f l' (wrap ab (wrap aa acc))
+    | AErr x => tail_fail_out l r x
+    | ADiv => Div
+    end
+  end.
+
+Lemma xk_enh_rewrite a b l x : xk (enh_rewrite a b l x) = xk x.
+Proof. unfold enh_rewrite. destruct (xk x) eqn:Ek; try exact Ek; reflexivity. Qed.
+
+Lemma grow_seed n : loc <= lb ->
+  grow direct_out (S n) (Z.of_nat loc - 1) (MExc (seed_exn loc (nid aE))) =
+  grow direct_out n (Z.of_nat lb) (MOk (wrap ab rb)).
+Proof.
+  intros Hl. cbn [grow]. unfold direct_out at 1. cbn [alt_out seed_exn mkx xk is_fatal is_pe orb].
+  destruct (Z.of_nat lb <=? Z.of_nat loc - 1)%Z eqn:Q; [apply Z.leb_le in Q; lia|reflexivity].
+Qed.
+
+Lemma grow_iter n : forall l r, lb <= l ->
+  grow direct_out n (Z.of_nat l) (MOk r) = iter n l r.
+Proof.
+  induction n as [|n IH]; intros l r Hl; [reflexivity|].
+  cbn [grow iter]. unfold direct_out at 1. unfold alt_out. rewrite Nat2Z.id.
+  destruct (and_pure aa tail l (wrap aE r) false) as [l' acc|x|].
+  - destruct (Nat.leb l' l) eqn:Q.
+    + apply Nat.leb_le in Q. destruct (Z.of_nat l' <=? Z.of_nat l)%Z eqn:Q2; [|apply Z.leb_gt in Q2; lia].
+      cbn [stop_out]. rewrite Nat2Z.id. reflexivity.
+    + apply Nat.leb_gt in Q. destruct (Z.of_nat l' <=? Z.of_nat l)%Z eqn:Q2; [apply Z.leb_le in Q2; lia|].
+      apply IH. lia.
+  - unfold tail_fail_out. unfold raise_out.
+    set (x' := if is_index (xk x) then idx_guard aa loc else x).
+    assert (Hstop : (if (Z.of_nat lb <=? Z.of_nat l)%Z then stop_out (Z.of_nat l) (MOk r)
+                     else grow direct_out n (Z.of_nat lb) (MOk (wrap ab rb))) = Ok l r).
+    { destruct (Z.of_nat lb <=? Z.of_nat l)%Z eqn:Q2; [|apply Z.leb_gt in Q2; lia].
+      cbn [stop_out]. rewrite Nat2Z.id. reflexivity. }
+    clearbody x'.
+    destruct (xk x') eqn:Ek; cbn [is_fatal is_pe is_index orb]; try exact Hstop;
+      rewrite xk_enh_rewrite; cbn [mkx xk]; rewrite ?Ek; reflexivity.
+  - reflexivity.
+Qed.
+
+(* the direct rule: Forward.parseImpl answers what `base (tail)*` answers, round by round *)
+Lemma direct_equiv f d m : f0 <= f -> loc <= lb ->
+  memo_get m (loc, nid aE, d) = None ->
+  exists m', lr_forward (parse_lr G (S (S (S f)))) aE body s loc d m =
+             Some (iter (length s + 2) lb (wrap ab rb), m') /\
+             m_cap m' = m_cap m /\
+             forall k, k <> (loc, nid aE, false) -> k <> (loc, nid aE, true) -> active m' k = active m k.
+Proof.
+  intros Hf Hl Hm. destruct (direct_forward f d m Hf Hm) as [m' [E1 E2]].
+  exists m'. split; [|exact E2]. rewrite E1.
+  replace (length s + 3) with (S (length s + 2)) by lia.
+  rewrite grow_seed by exact Hl. rewrite grow_iter by lia. reflexivity.
+Qed.
+
+(* the answer does not depend on the memo (capacity, retained entries, entries of other keys) *)
+Lemma direct_capacity_independent f d m1 m2 : f0 <= f -> loc <= lb ->
+  memo_get m1 (loc, nid aE, d) = None -> memo_get m2 (loc, nid aE, d) = None ->
+  option_map fst (lr_forward (parse_lr G (S (S (S f)))) aE body s loc d m1) =
+  option_map fst (lr_forward (parse_lr G (S (S (S f)))) aE body s loc d m2).
+Proof.
+  intros Hf Hl H1 H2.
+  destruct (direct_equiv f d m1 Hf Hl H1) as [m1' [E1 _]].
+  destruct (direct_equiv f d m2 Hf Hl H2) as [m2' [E2 _]].
+  rewrite E1, E2. reflexivity.
+Qed.
+
+(* tokens: one round appends exactly the tokens of one tail *)
+Fixpoint tail_toks (es : list expr) (l : nat) : list tok :=
+  match es with
+  | [] => []
+  | c :: rest =>
+    match c with
+    | Tok _ _ KErrorStop => tail_toks rest l
+    | _ => match ans c l with Ok l' r => toks r ++ tail_toks rest l' | _ => [] end
+    end
+  end.
+
+Lemma and_pure_toks a es : forall l acc estop l' acc',
+  and_pure a es l acc estop = AOk l' acc' -> toks acc' = toks acc ++ tail_toks es l.
+Proof.
+  induction es as [|c es IH]; intros l acc estop l' acc' H.
+  - simpl in H. injection H as <- <-. simpl. rewrite app_nil_r. reflexivity.
+  - assert (Hgen : (match ans c l with
+                    | Ok l1 r => and_pure a es l1 (pr_iadd acc r) estop
+                    | Div => ADiv
+                    | Err x => AErr (estop_exn a estop x)
+                    end) = AOk l' acc' ->
+                   toks acc' = toks acc ++ (match ans c l with Ok l1 r => toks r ++ tail_toks es l1 | _ => [] end)).
+    { destruct (ans c l) as [l1 r1|x|]; try discriminate. intros H1.
+      rewrite (IH _ _ _ _ _ H1). rewrite toks_iadd, app_assoc. reflexivity. }
+    destruct c as [a0 i0 t0|a0 i0 k0 es0|a0 i0 k0 c0|a0 i0 z0 c0 n0|a0 i0 c0 inc0 ig0 fo0|a0 i0 id0];
+      try exact (Hgen H).
+    destruct t0; try exact (Hgen H).
+    cbn [and_pure tail_toks] in *. exact (IH _ _ _ _ _ H).
+Qed.
+
+(* round k+1: if the tail matches at the current end l and advances, the next entry holds the previous tokens followed by
+   that tail's tokens *)
+Lemma iter_round n l r l' acc :
+  and_pure aa tail l (wrap aE r) false = AOk l' acc -> l < l' ->
+  iter (S n) l r = iter n l' (wrap ab (wrap aa acc)) /\
+  toks (wrap ab (wrap aa acc)) = toks r ++ tail_toks tail l.
+Proof.
+  clear HG HpE Hpa Hpb Hstable Hbase_ind Htail_ind Hbase.
+  intros H Hlt. split.
+  - cbn [iter]. rewrite H. destruct (Nat.leb l' l) eqn:Q; [apply Nat.leb_le in Q; lia|reflexivity].
+  - rewrite !toks_wrap. rewrite (and_pure_toks _ _ _ _ _ _ _ H). rewrite toks_wrap. reflexivity.
+Qed.
+
+(* the loop stops at the first round in which the tail fails (ParseException / IndexError) or does not advance *)
+Lemma iter_stop_fail n l r x :
+  and_pure aa tail l (wrap aE r) false = AErr x -> is_pe (xk x) = true ->
+  iter (S n) l r = Ok l r.
+Proof.
+  clear HG HpE Hpa Hpb Hstable Hbase_ind Htail_ind Hbase.
+  intros H Hx. cbn [iter]. rewrite H. unfold tail_fail_out, raise_out.
+  destruct (xk x) eqn:Ek; try discriminate. cbn [is_index]. rewrite Ek. reflexivity.
+Qed.
+
+Lemma iter_stop_stuck n l r l' acc :
+  and_pure aa tail l (wrap aE r) false = AOk l' acc -> l' <= l ->
+  iter (S n) l r = Ok l r.
+Proof.
+  clear HG HpE Hpa Hpb Hstable Hbase_ind Htail_ind Hbase.
+  intros H Hle. cbn [iter]. rewrite H. destruct (Nat.leb l' l) eqn:Q; [reflexivity|apply Nat.leb_gt in Q; lia].
+Qed.
+
+(* ---- the iterative reading `base (tail)*` at the level of (end location, token list) ---- *)
+(* where the tail sequence ends when every element matches *)
+Fixpoint tail_end (es : list expr) (l : nat) : option nat :=
+  match es with
+  | [] => Some l
+  | c :: rest =>
+    match c with
+    | Tok _ _ KErrorStop => tail_end rest l
+    | _ => match ans c l with Ok l' _ => tail_end rest l' | _ => None end
+    end
+  end.
+
+Lemma and_pure_end a es : forall l acc estop,
+  match and_pure a es l acc estop with
+  | AOk l' _ => tail_end es l = Some l'
+  | AErr _ | ADiv => tail_end es l = None
+  end.
+Proof.
+  induction es as [|c es IH]; intros l acc estop; [reflexivity|].
+  assert (Hgen :
+    match (match ans c l with
+           | Ok l1 r => and_pure a es l1 (pr_iadd acc r) estop
+           | Div => ADiv
+           | Err x => AErr (estop_exn a estop x)
+           end) with
+    | AOk l' _ => (match ans c l with Ok l1 _ => tail_end es l1 | _ => None end) = Some l'
+    | AErr _ | ADiv => (match ans c l with Ok l1 _ => tail_end es l1 | _ => None end) = None
+    end).
+  { destruct (ans c l) as [l1 r1|x|]; try reflexivity. apply IH. }
+  destruct c as [a0 i0 t0|a0 i0 k0 es0|a0 i0 k0 c0|a0 i0 z0 c0 n0|a0 i0 c0 inc0 ig0 fo0|a0 i0 id0];
+    try exact Hgen.
+  destruct t0; try exact Hgen.
+  cbn [and_pure tail_end]. apply IH.
+Qed.
+
+(* ZeroOrMore(tail...) read as a function: keep appending the tokens of one tail while the tail matches and advances *)
+Fixpoint rep_ref (fuel : nat) (l : nat) (ts : list tok) : option (nat * list tok) :=
+  match fuel with
+  | 0 => None
+  | S f =>
+    match tail_end tail l with
+    | Some l' => if Nat.leb l' l then Some (l, ts) else rep_ref f l' (ts ++ tail_toks tail l)
+    | None => Some (l, ts)
+    end
+  end.
+
+(* whenever the growth loop answers a match, it is the match of the iterative reading *)
+Lemma iter_rep_ref n : forall l r l' r',
+  iter n l r = Ok l' r' -> rep_ref n l (toks r) = Some (l', toks r').
+Proof.
+  clear HG HpE Hpa Hpb Hstable Hbase_ind Htail_ind Hbase.
+  induction n as [|n IH]; intros l r l' r' H; [discriminate|].
+  cbn [iter] in H. cbn [rep_ref].
+  pose proof (and_pure_end aa tail l (wrap aE r) false) as He.
+  pose proof (and_pure_toks aa tail l (wrap aE r) false) as Ht.
+  destruct (and_pure aa tail l (wrap aE r) false) as [l1 acc|x|].
+  - rewrite He. destruct (Nat.leb l1 l).
+    + injection H as <- <-. reflexivity.
+    + specialize (IH _ _ _ _ H). rewrite !toks_wrap in IH. rewrite (Ht _ _ eq_refl), toks_wrap in IH. exact IH.
+  - rewrite He. unfold tail_fail_out, raise_out in H.
+    set (x2 := if is_index (xk x) then idx_guard aa loc else x) in H.
+    destruct (is_fatal (xk x2)); [discriminate|]. destruct (is_pe (xk x2) || is_index (xk x2)); [|discriminate].
+    injection H as <- <-. reflexivity.
+  - discriminate.
+Qed.
+
+(* the same through the handler: `E._parse(instring, loc0, do, callPreParse)` on a memo without an entry for E *)
+Lemma direct_parse_lr f d pre loc0 m : f0 <= f -> loc <= lb ->
+  fwd_start aE s loc0 pre = loc ->
+  memo_get m (loc, nid aE, d) = None ->
+  exists m', parse_lr G (S (S (S (S f)))) m (mkargs E s loc0 d pre) =
+             Some (match iter (length s + 2) lb (wrap ab rb) with
+                   | Ok l r => Ok l (wrap aE r)
+                   | Err x => raise_out aE loc x
+                   | Div => Div
+                   end, m') /\ m_cap m' = m_cap m.
+Proof.
+  intros Hf Hl Hstart Hm. unfold E.
+  rewrite (parse_lr_fwd G _ m aE [] id body s loc0 d pre HG). cbv zeta.
+  assert (Hpre : (if pre && callpre aE
+                  then pre_parse escape (Fwd aE [] (Some id)) s loc0 (fun l => Ret (Ok l pr_empty))
+                  else Ret (Ok loc0 pr_empty)) = Ret (Ok loc pr_empty)).
+  { rewrite <- Hstart. unfold fwd_start. destruct (pre && callpre aE); [|reflexivity]. rewrite pre_parse_fwd_nil. reflexivity. }
+  rewrite Hpre. cbn [runm].
+  destruct (direct_equiv f d m Hf Hl Hm) as [m' [E1 [E2 _]]]. rewrite E1.
+  exists m'. split; [|exact E2].
+  destruct (iter (length s + 2) lb (wrap ab rb)) as [l r|x|].
+  - cbn [step_k]. rewrite finish_plain_attrs by exact HpE. reflexivity.
+  - rewrite step_k_raise. reflexivity.
+  - reflexivity.
+Qed.
+
+End Direct.
+
+(* ------------------------------------------------------------------------------------------- *)
+(* 5. leaves are memo-independent; an instance meeting every hypothesis of the direct-rule theorem *)
+(* ------------------------------------------------------------------------------------------- *)
+(* the answer of an element whose `step` makes no recursive call *)
+Definition leaf_ans (G : env) (s : str) (c : expr) (l : nat) : outcome :=
+  match step G (mkargs c s l false true) with Ret o => o | Call _ _ => Div end.
+
+Lemma tok_step_ret G s a t l d : acts a = [] ->
+  step G (mkargs (Tok a [] t) s l d true) = Ret (leaf_ans G s (Tok a [] t) l).
+Proof.
+  intros Ha. unfold leaf_ans.
+  assert (Hd : step G (mkargs (Tok a [] t) s l d true) = step G (mkargs (Tok a [] t) s l false true)).
+  { destruct a. cbn in Ha. subst. reflexivity. }
+  rewrite Hd.
+  assert (Hk : forall pl, exists o, impl G (Tok a [] t) s pl false (step_k (Tok a [] t) s false pl) = Ret o).
+  { intros pl. cbn [impl]. unfold step_k. cbn [attrs_of].
+    destruct (tok_impl a t s pl) as [l' r'|x|].
+    - unfold finish. cbn [attrs_of]. rewrite Ha. eexists. reflexivity.
+    - eexists. reflexivity.
+    - destruct (mayidx a || Nat.leb (length s) pl); eexists; reflexivity. }
+  assert (Hs : exists o, step G (mkargs (Tok a [] t) s l false true) = Ret o).
+  { unfold step. cbn [a_e a_s a_do a_pre a_loc mkargs andb attrs_of].
+    destruct (callpre a); [|apply Hk].
+    unfold pre_parse. cbn [ign_of attrs_of].
+    destruct t; try (rewrite skip_ignorables_nil; apply Hk).
+    - destruct l; [apply Hk|]. destruct orig_has_nl; apply Hk.
+    - destruct (Nat.eqb (col_at s l) c); [apply Hk|]. rewrite skip_ignorables_nil. apply Hk. }
+  destruct Hs as [o Ho]. rewrite Ho. reflexivity.
+Qed.
+
+Lemma tok_indep G s a t : acts a = [] -> indep G s (leaf_ans G s) 1 (Tok a [] t).
+Proof.
+  intros Ha fu Hfu m l d. destruct fu as [|fu]; [lia|].
+  cbn [parse_lr a_e mkargs]. rewrite tok_step_ret by exact Ha. reflexivity.
+Qed.
+
+(* ------------------------------------------------------------------------------------------- *)
+(* 6. concrete attributed grammars (as dumped from the real objects after streamline(), default whitespace)  *)
+(* ------------------------------------------------------------------------------------------- *)
+Definition W4 : list char := [9; 10; 13; 32]%N.
+Definition mk (id : nat) (asl cp mi hm : bool) (sl : nat) : attrs :=
+  {| nid := id; rsname := None; modalr := true; aslist := asl; skipws := true; white := W4; callpre := cp;
+     mayidx := mi; custom := false; hasmsg := hm; acts := []; calltry := false; slen := sl |}.
+Definition lit (id : nat) (c : N) : expr := Tok (mk id false true false true 3) [] (KLit [c]).
+Definition D10 : list char := [48; 49; 50; 51; 52; 53; 54; 55; 56; 57]%N.
+Definition num (id : nat) : expr := Tok (mk id false true false true 7) [] (KWord D10 D10 1 None false false true).
+
+(* X <<= Y + 'x' | 'a' ; Y <<= X + 'y'   (X = Forward #1 -> G[0], Y = Forward #4 -> G[1]) *)
+Definition gX : expr := Fwd (mk 1 false true true false 43) [] (Some 0).
+Definition gY : expr := Fwd (mk 4 true true true false 20) [] (Some 1).
+Definition GXY : env :=
+  [ Nary (mk 2 true false true true 34) [] NMatchFirst
+      [ Nary (mk 3 true true true true 26) [] NAnd [gY; lit 5 120]; lit 6 97 ];
+    Nary (mk 7 true true true true 49) [] NAnd [gX; lit 8 121] ].
+(* its iterative equivalent  'a' + ZeroOrMore('y' + 'x') *)
+Definition IXY : expr :=
+  Nary (mk 1 true true true true 20) [] NAnd
+    [ lit 2 97;
+      Rep (mk 3 true true true false 14) [] true (Nary (mk 4 true true true true 9) [] NAnd [lit 5 121; lit 6 120]) None ].
+
+(* E <<= E + '+' + N | N  with N = Word(nums) *)
+Definition gE_attrs : attrs := mk 1 false true true false 42.
+Definition gE : expr := Fwd gE_attrs [] (Some 0).
+Definition gE_body : expr :=
+  Nary (mk 2 true false true true 33) [] NMatchFirst
+    [ Nary (mk 3 true true true true 56) [] NAnd [gE; lit 4 43; num 5]; num 5 ].
+Definition GE : env := [ gE_body ].
+(* its iterative equivalent  N + ZeroOrMore('+' + N) *)
+Definition IE : expr :=
+  Nary (mk 1 true true true true 28) [] NAnd
+    [ num 2; Rep (mk 3 true true true false 18) [] true (Nary (mk 4 true true true true 13) [] NAnd [lit 5 43; num 2]) None ].
+
+(* E <<= E + 'a' : no base case *)
+Definition gN_attrs : attrs := mk 1 true true true false 20.
+Definition gN : expr := Fwd gN_attrs [] (Some 0).
+Definition GN : env := [ Nary (mk 2 true true true true 26) [] NAnd [gN; lit 3 97] ].
+
+Definition tstr (c : N) : tok := TStr [c].
+Definition res_of (o : option (outcome * memo)) : option (nat * list tok) :=
+  match o with Some (Ok l r, _) => Some (l, toks r) | _ => None end.
+Definition res_of_plain (o : option outcome) : option (nat * list tok) :=
+  match o with Some (Ok l r) => Some (l, toks r) | _ => None end.
+Definition out_of (o : option (outcome * memo)) : option outcome := option_map fst o.
+
+(* "1+2+1" *)
+Definition s_121 : str := [49; 43; 50; 43; 49]%N.
+
+(* the direct-rule theorem applies to GE on "1+2+1": every hypothesis is met, for every fuel, do_actions and memo
+   (any capacity, any content without an entry for E at 0) *)
+Lemma direct_instance f d m :
+  memo_get m (0, 1, d) = None ->
+  exists m', parse_lr GE (5 + f) m (mkargs gE s_121 0 d true) =
+             Some (Ok 5 (pr_of_list [tstr 49; tstr 43; tstr 50; tstr 43; tstr 49]), m') /\ m_cap m' = m_cap m.
+Proof.
+  intros Hm.
+  assert (Hb : leaf_ans GE s_121 (num 5) 0 = Ok 1 (pr_of_list [tstr 49])) by (vm_compute; reflexivity).
+  assert (Hnum : indep GE s_121 (leaf_ans GE s_121) 1 (num 5)) by (apply tok_indep; reflexivity).
+  assert (Hplus : indep GE s_121 (leaf_ans GE s_121) 1 (lit 4 43)) by (apply tok_indep; reflexivity).
+  assert (Htl : forall c, In c [lit 4 43; num 5] -> indep GE s_121 (leaf_ans GE s_121) 1 c).
+  { intros c [<-|[<-|[]]]; assumption. }
+  destruct (direct_parse_lr GE s_121 (leaf_ans GE s_121) 0 gE_attrs (mk 2 true false true true 33) (mk 3 true true true true 56)
+              [lit 4 43; num 5] (num 5) 0 1
+              eq_refl (conj eq_refl eq_refl) (conj eq_refl eq_refl) (conj eq_refl eq_refl) eq_refl
+              Hnum Htl 1 _ Hb (S f) d true 0 m) as [m' [E1 E2]]; [lia|lia|reflexivity|exact Hm|].
+  exists m'. split; [|exact E2]. exact E1.
+Qed.
+
+(* "ayxyx" *)
+Definition s_ayxyx : str := [97; 121; 120; 121; 120]%N.
+
+(* a body that grows by exactly one position per round up to len + 1: shows that the fuel bound len + 3 is tight and that
+   the hypothesis of the termination theorem is satisfiable *)
+Definition toy_rec : hrec := fun m ar =>
+  match memo_get m (a_loc ar, 0, false) with
+  | Some ((pl, _), m') => Some (Ok (Nat.min (Z.to_nat (pl + 1)) (length (a_s ar) + 1)) pr_empty, m')
+  | None => Some (Err (mkx XParse 0%Z MEmpty None), m)
+  end.
+Definition toy_attrs : attrs := mk 0 false true true false 0.
+
+Lemma toy_bounded body s loc : ends_bounded toy_rec toy_attrs body s loc (length s + 1).
+Proof.
+  intros m l r m' H. unfold super_impl, toy_rec in H. cbn [a_loc a_s mkargs] in H.
+  destruct (memo_get m (loc, 0, false)) as [[[pl pr] m1]|].
+  - injection H as <- _ _. apply Nat.le_min_r.
+  - discriminate.
+Qed.
+
+(* discharging the stability hypothesis of the direct-rule theorem: where E starts after its own whitespace skip, an And
+   with the same whitespace characters does not skip any further *)
+Lemma stable_after_skip s loc0 aE aa :
+  skipws aE = true -> callpre aE = true -> white aa = white aE ->
+  let loc := fwd_start aE s loc0 true in
+  (if callpre aa then (if skipws aa then skip_white s loc (white aa) else loc) else loc) = loc.
+Proof.
+  intros H1 H2 H3. unfold fwd_start. rewrite H1, H2. cbn [andb]. rewrite H3.
+  destruct (callpre aa); [|reflexivity]. destruct (skipws aa); [|reflexivity]. apply skip_white_idem.
+Qed.
